@@ -126,6 +126,14 @@ func (a *HypAttributes) Validate() error {
 		return fmt.Errorf("destination domain %d is a Noble domain", a.DestinationDomain)
 	}
 
+	// The max fee is optional. When an amount is given it must be a valid coin:
+	// the warp module builds a coin set out of it, which panics otherwise.
+	if !a.MaxFee.Amount.IsNil() {
+		if err := a.MaxFee.Validate(); err != nil {
+			return fmt.Errorf("invalid max fee: %w", err)
+		}
+	}
+
 	if a.CustomHookMetadata != "" {
 		if !strings.HasPrefix(a.CustomHookMetadata, HypHookMetadataPrefix) {
 			return fmt.Errorf("hook metadata must have the %s prefix, got: %s",
